@@ -150,7 +150,7 @@ func inflationArgs(arg uint64) []uint64 {
 // major type replaced by each other major type, the additional-info field replaced by each
 // of 24..31, and every argument byte replaced by 0xff / incremented. emit gets a short label
 // and the mutated encoding; it returns false to stop.
-func headerMutations(enc []byte, emit func(label string, b []byte) bool) {
+func headerMutations(enc []byte, pick func(i, n int) bool, emit func(label string, b []byte) bool) {
 	items, err := walkCBOR(enc)
 	if err != nil {
 		return
@@ -159,6 +159,9 @@ func headerMutations(enc []byte, emit func(label string, b []byte) bool) {
 		return "hdr#" + itoa(i) + "@" + itoa(it.off) + "/m" + itoa(int(it.maj)) + "/" + what + "=" + utoa(v)
 	}
 	for i, it := range items {
+		if pick != nil && !pick(i, len(items)) {
+			continue
+		}
 		for _, a := range inflationArgs(it.arg) {
 			if a == it.arg {
 				continue
